@@ -20,7 +20,7 @@ def showOptCps : Option (List Nat) → String
 
 def reByName (n : String) : Option Re :=
   if n == "unicodesub" then some unicodesubRe
-  else if n == "cleanstring" then some cleanstringRe
+  else if n == "stringsub" then some stringsubRe
   else if n == "simpleescapes" then some simpleescapesRe
   else if n == bomName then some bomRe
   else productions.lookup n
@@ -41,8 +41,8 @@ def handle (line : String) : String :=
   | ["subu", t] => match decCps t with
       | some t => showOptCps (subU t)
       | none => "bad-op"
-  | ["subclean", t] => match decCps t with
-      | some t => showOptCps (subClean t)
+  | ["subs", t] => match decCps t with
+      | some t => showOptCps (subS t)
       | none => "bad-op"
   | ["normalize", t] => match decCps t with
       | some t => showOptCps (normalize t)
@@ -53,9 +53,7 @@ def handle (line : String) : String :=
   | ["spec", f, t] => match decCps t with
       | some t =>
         if f == "unescape" then "OK " ++ encCps (unescape t)
-        else if f == "stripcont" then "OK " ++ encCps (stripCont t)
         else if f == "strval" then "OK " ++ encCps (stringValue t)
-        else if f == "safe" then (if safe t then "1" else "0")
         else if f == "lc" then s!"{(lc t).1} {(lc t).2}"
         else "bad-op"
       | none => "bad-op"
